@@ -2,6 +2,8 @@
 
 GAP_TYPES = ["scaffold", "contig", "centromere", "short_arm", "heterochromatin", "telomere", "repeat", "contamination"]
 NAME_ALPHA = "abcXYZ019_-.:|/ ()+=,;@'\"[]{}~^%&*!?<>\u00e9\u03b2"
+# characters that str.splitlines() takes for line ends but a file is not split at: legitimate inside a name
+EXOTIC = "\x0b\x0c\x1c\x1d\x1e\x85\u2028\u2029"
 
 
 def gen_name(rng, scaffold=False):
@@ -16,6 +18,9 @@ def gen_name(rng, scaffold=False):
         n = "q" + n
     if rng.random() < 0.15:
         n = n + "#" + str(rng.randint(1, 9)) + rng.choice(["", "#chr1"])  # PanSN-style names: '#' inside a name is no comment
+    if len(n) > 1 and rng.random() < 0.08:
+        k = 1 + (len(n) * 7 + ord(n[0])) % (len(n) - 1)
+        n = n[:k] + EXOTIC[(len(n) + ord(n[-1])) % len(EXOTIC)] + n[k:]  # never at either end: rstrip() territory
     if not scaffold and rng.random() < 0.1:
         n = rng.choice([" ", ""]) + n + rng.choice([" ", "  "])  # blanks at the ends of a contig name belong to the name
     return n
